@@ -87,6 +87,11 @@ Fixpoint run (p : proto) (s : st) (acts : list action) : option st :=
   | a :: r => match step p s a with Some s' => run p s' r | None => None end
   end.
 
+(* every state the skeleton can reach: any actions in any order (the schedule is the action list) *)
+Inductive reach (p : proto) : st -> Prop :=
+| reach0 : reach p st0
+| reach_step s a s' : reach p s -> step p s a = Some s' -> reach p s'.
+
 Definition wf_proto (p : proto) : bool :=
   (1 <=? n_off p) && (1 <=? n_take p) &&
   negb (akind_eqb (off_kind p) ALoad) && negb (akind_eqb (take_kind p) AStore) &&
@@ -94,3 +99,233 @@ Definition wf_proto (p : proto) : bool :=
 
 Definition orders_ok (p : proto) : bool :=
   forallb (fun m => order_ge m Release) (off_mos p) && forallb (fun m => order_ge m Acquire) (take_mos p).
+
+(* ------------------------------------------------------------------------------------------------------------------
+   The covered hand-offs as data.  [h_off]: sites whose declared order must be >= Release; [h_take]: sites whose declared
+   order must be >= Acquire (for a compare_exchange the SUCCESS order: the hand-off is taken on success).  Site keys are
+   those of Gen/GenOrders.v (tools/orders.py); a key that is not in the table reads as Relaxed. *)
+Local Open Scope string_scope.
+
+Record handoff := {
+  h_name : string;
+  h_off : list string; h_off_kind : akind;
+  h_take : list string; h_take_kind : akind;
+  h_payload : string }.
+
+Definition proto_of (h : handoff) (noff ntake : nat) : proto :=
+  {| n_off := noff; n_take := ntake; off_kind := h_off_kind h; take_kind := h_take_kind h;
+     off_mos := map site_mo (h_off h); take_mos := map site_mo (h_take h) |}.
+
+Definition handoff_ok (h : handoff) : bool :=
+  forallb has_site (app (h_off h) (h_take h)) &&
+  forallb (fun s => order_ge (site_mo s) Release) (h_off h) &&
+  forallb (fun s => order_ge (site_mo s) Acquire) (h_take h).
+
+Definition kinds_ok (h : handoff) : bool :=
+  negb (akind_eqb (h_off_kind h) ALoad) && negb (akind_eqb (h_take_kind h) AStore).
+
+(* number of offerers admitted: a plain-store protocol has a single writer per stage *)
+Definition noff_ok (h : handoff) (noff : nat) : bool :=
+  Nat.leb 1 noff && (negb (akind_eqb (h_off_kind h) AStore) || Nat.eqb noff 1).
+
+Definition spsc := "spsc_ring_buffer.h:SPSCRingBuffer::".
+Definition mpmc := "mpmc_ring_buffer.h:MpmcRingBuffer::".
+Definition cei := "detail/completion_event_impl.h:CompletionEventImpl::".
+Definition fib := "detail/future_impl.h:FutureImplBase::".
+Definition cvb := "detail/concurrent_vector_impl.h:ConVecBuffer::".
+Definition coa := "concurrent_object_arena.h:ConcurrentObjectArena::".
+Definition rwl := "detail/rw_lock_impl.h:RWLockImpl::".
+Definition tsi := "detail/task_set_impl.h:TaskSetBase::".
+Definition event_waits : list string :=
+  [cei ++ "wait:status_:load#0"; cei ++ "waitFor:status_:load#0"; cei ++ "waitFor:status_:load#1"; cei ++ "waitUntil:status_:load#0"].
+
+Definition h_spsc_push_pop : handoff := {|
+  h_name := "spsc.push_to_pop";
+  h_off := [spsc ++ "try_push:tail_:store#0"; spsc ++ "try_push:tail_:store#1"; spsc ++ "try_emplace:tail_:store#0";
+            spsc ++ "try_push_batch:tail_:store#0"]; h_off_kind := AStore;
+  h_take := [spsc ++ "try_pop:tail_:load#0"; spsc ++ "try_pop:tail_:load#1"; spsc ++ "try_pop_into:tail_:load#0";
+             spsc ++ "try_pop_batch:tail_:load#0"]; h_take_kind := ALoad;
+  h_payload := "element constructed in the slot by the producer, moved out / destroyed by the consumer" |}.
+
+Definition h_spsc_pop_push : handoff := {|
+  h_name := "spsc.pop_to_push";
+  h_off := [spsc ++ "try_pop:head_:store#0"; spsc ++ "try_pop:head_:store#1"; spsc ++ "try_pop_into:head_:store#0";
+            spsc ++ "try_pop_batch:head_:store#0"]; h_off_kind := AStore;
+  h_take := [spsc ++ "try_push:head_:load#0"; spsc ++ "try_push:head_:load#1"; spsc ++ "try_emplace:head_:load#0";
+             spsc ++ "try_push_batch:head_:load#0"]; h_take_kind := ALoad;
+  h_payload := "the emptied slot storage, reused by the producer after wrap-around" |}.
+
+Definition h_mpmc_push_pop : handoff := {|
+  h_name := "mpmc.slot_seq_push_to_pop";
+  h_off := [mpmc ++ "emplaceImpl:seq:store#0"; mpmc ++ "try_push_batch:seq:store#0"]; h_off_kind := AStore;
+  h_take := [mpmc ++ "try_pop:seq:load#0"; mpmc ++ "try_pop:seq:load#1"; mpmc ++ "try_pop_into:seq:load#0"]; h_take_kind := ALoad;
+  h_payload := "element in the slot; head_/tail_ CAS are relaxed and only arbitrate, the slot sequence is the hand-off" |}.
+
+Definition h_mpmc_pop_push : handoff := {|
+  h_name := "mpmc.slot_seq_pop_to_push";
+  h_off := [mpmc ++ "try_pop:seq:store#0"; mpmc ++ "try_pop:seq:store#1"; mpmc ++ "try_pop_into:seq:store#0"]; h_off_kind := AStore;
+  h_take := [mpmc ++ "emplaceImpl:seq:load#0"; mpmc ++ "try_push_batch:seq:load#0"]; h_take_kind := ALoad;
+  h_payload := "the emptied slot storage, reused by a producer one lap later" |}.
+
+Definition h_event : handoff := {|
+  h_name := "completion_event.notify_to_wait";
+  h_off := [cei ++ "notify:status_:store#0"]; h_off_kind := AStore;
+  h_take := event_waits; h_take_kind := ALoad;
+  h_payload := "everything the notifier wrote before notify(), read by every waiter after wait()" |}.
+
+Definition h_latch_direct : handoff := {|
+  h_name := "latch.count_down_to_wait";
+  h_off := ["latch.h:Latch::count_down:intrusiveStatus():fetch_sub#0"; "latch.h:Latch::arrive_and_wait:intrusiveStatus():fetch_sub#0"];
+  h_off_kind := ARmw;
+  h_take := "latch.h:Latch::try_wait:intrusiveStatus():load#0" :: event_waits; h_take_kind := ALoad;
+  h_payload := "what each arriving thread wrote before count_down, read by the waiters (zero read from the last decrement)" |}.
+
+Definition h_latch_last : handoff := {|
+  h_name := "latch.count_down_to_last_arrival";
+  h_off := ["latch.h:Latch::count_down:intrusiveStatus():fetch_sub#0"; "latch.h:Latch::arrive_and_wait:intrusiveStatus():fetch_sub#0"];
+  h_off_kind := ARmw;
+  h_take := ["latch.h:Latch::count_down:intrusiveStatus():fetch_sub#0"; "latch.h:Latch::arrive_and_wait:intrusiveStatus():fetch_sub#0"];
+  h_take_kind := ARmw;
+  h_payload := "same payload, first stage: the last arrival acquires the earlier ones, then publishes with notify(0)'s plain store (stage 2 = completion_event.notify_to_wait)" |}.
+
+Definition h_future_result : handoff := {|
+  h_name := "future.result_publication";
+  h_off := [cei ++ "notify:status_:store#0"; fib ++ "setReady:intrusiveStatus():store#0"]; h_off_kind := AStore;
+  h_take := [fib ++ "ready:intrusiveStatus():load#0"; fib ++ "waitCommon:intrusiveStatus():load#0";
+             fib ++ "addToThenChainOrExecute:intrusiveStatus():load#0"; fib ++ "addToThenChainOrExecute:intrusiveStatus():load#1";
+             cei ++ "wait:status_:load#0"; cei ++ "waitFor:status_:load#0"; cei ++ "waitFor:status_:load#1"; cei ++ "waitUntil:status_:load#0"];
+  h_take_kind := ALoad;
+  h_payload := "resultBuf_ / exception_ written by runFunc() before status_.notify(kReady); read by get() after the waiter saw kReady" |}.
+
+Definition h_then_chain : handoff := {|
+  h_name := "future.then_chain_link";
+  h_off := [fib ++ "addToThenChainOrExecute:thenChain_:compare_exchange_weak#0"]; h_off_kind := ARmw;
+  h_take := [fib ++ "tryExecuteThenChain:thenChain_:compare_exchange_weak#0"]; h_take_kind := ARmw;
+  h_payload := "ThenChain link (next, impl, schedulable, invoke) written by the thread that pushes it, read and freed by the thread that detaches the chain" |}.
+
+Definition h_whenall : handoff := {|
+  h_name := "future.when_all_count";
+  h_off := ["detail/future_impl2.h:whenAllTuple:count:fetch_sub#0"; "detail/future_impl2.h:whenAllIterators:count:fetch_sub#0"];
+  h_off_kind := ARmw;
+  h_take := ["detail/future_impl2.h:whenAllTuple:count:load#0"; "detail/future_impl2.h:whenAllIterators:count:load#0"];
+  h_take_kind := ALoad;
+  h_payload := "completion of each input future, observed by whenComplete when it reads count == 0" |}.
+
+Definition h_async_ready : handoff := {|
+  h_name := "async_request.ready_to_get";
+  h_off := ["async_request.h:AsyncRequest::tryEmplaceUpdate:state_:store#0"]; h_off_kind := AStore;
+  h_take := ["async_request.h:AsyncRequest::getUpdate:state_:compare_exchange_strong#0"]; h_take_kind := ARmw;
+  h_payload := "obj_ emplaced by the updater, moved out by the requester" |}.
+
+Definition h_async_consumed : handoff := {|
+  h_name := "async_request.consumed_to_next_update";
+  h_off := ["async_request.h:AsyncRequest::getUpdate:state_:store#0"]; h_off_kind := AStore;
+  h_take := ["async_request.h:AsyncRequest::tryEmplaceUpdate:state_:compare_exchange_strong#0"]; h_take_kind := ARmw;
+  h_payload := "the emptied obj_; requestUpdate's CAS (kNone -> kNeedsUpdate) is a read-modify-write in between and continues the release sequence" |}.
+
+Definition h_cvec : handoff := {|
+  h_name := "concurrent_vector.buffer_publication";
+  h_off := [cvb ++ "allocAsNecessaryImpl:buffers_:store#0"; cvb ++ "tryAssignBuffer:buffers_:store#0"]; h_off_kind := AStore;
+  h_take := [cvb ++ "allocAsNecessaryImpl:buffers_:load#1"; cvb ++ "allocAsNecessaryImpl:buffers_:load#4"]; h_take_kind := ALoad;
+  h_payload := "the freshly allocated bucket (allocator bookkeeping, cachedPtrs_ entry) written by the allocating appender; every appender passes the wait loop before touching the bucket" |}.
+
+Definition h_arena_size : handoff := {|
+  h_name := "arena.allocated_size_publication";
+  h_off := [coa ++ "grow_by:allocatedSize_:store#0"]; h_off_kind := AStore;
+  h_take := [coa ++ "grow_by:allocatedSize_:load#0"]; h_take_kind := ALoad;
+  h_payload := "new buffer and its buffer-table entry written under resizeMutex_ before allocatedSize_ grows; used by the thread that sees the larger size" |}.
+
+Definition h_arena_table : handoff := {|
+  h_name := "arena.buffer_table_publication";
+  h_off := [coa ++ "allocateBuffer:buffers_:store#0"]; h_off_kind := AStore;
+  h_take := [coa ++ "operator[]:buffers_:load#0"; coa ++ "getBuffer:buffers_:load#0"; coa ++ "getBuffer:buffers_:load#1";
+             coa ++ "constructObjects:buffers_:load#0"]; h_take_kind := ALoad;
+  h_payload := "the reallocated table of buffer pointers (copied entries) read through buffers_" |}.
+
+Definition rw_acquires : list string :=
+  [rwl ++ "setWriteBit:lockWord():fetch_or#0"; rwl ++ "setWriteBit:lockWord():fetch_or#1"; rwl ++ "tryWriteBit:lockWord():fetch_or#0";
+   rwl ++ "try_lock:lockWord():fetch_or#0"].
+
+Definition h_rw_unlock_lock : handoff := {|
+  h_name := "rwlock.unlock_to_lock";
+  h_off := [rwl ++ "unlock:lockWord():fetch_and#0"; rwl ++ "try_lock:lockWord():fetch_and#0"]; h_off_kind := ARmw;
+  h_take := app rw_acquires [rwl ++ "lock_shared:lockWord():fetch_add#0"; rwl ++ "lock_shared:lockWord():fetch_add#1";
+                             rwl ++ "try_lock_shared:lockWord():fetch_add#0"]; h_take_kind := ARmw;
+  h_payload := "data protected by the lock: the writer's critical section, then the next writer (exclusive) or the next readers (shared)" |}.
+
+Definition h_rw_readers_writer_rmw : handoff := {|
+  h_name := "rwlock.readers_to_writer.rmw";
+  h_off := [rwl ++ "readerRelease:lockWord():fetch_sub#0"; rwl ++ "lock_upgrade:lockWord():fetch_sub#0"]; h_off_kind := ARmw;
+  h_take := rw_acquires; h_take_kind := ARmw;
+  h_payload := "protected data read by each reader, then written by the writer whose fetch_or found no reader left" |}.
+
+Definition h_rw_readers_writer_load : handoff := {|
+  h_name := "rwlock.readers_to_writer.drain";
+  h_off := [rwl ++ "readerRelease:lockWord():fetch_sub#0"; rwl ++ "lock_upgrade:lockWord():fetch_sub#0"]; h_off_kind := ARmw;
+  h_take := [cei ++ "wait:status_:load#0"; rwl ++ "try_lock:lockWord():load#0"]; h_take_kind := ALoad;
+  h_payload := "same, for the writer that waits for the readers to drain (waitForReaderDrain / try_lock's bounded spin)" |}.
+
+Definition ts_waits : list string :=
+  ["task_set.cpp:ConcurrentTaskSet::wait:outstandingTaskCount_:load#0"; "task_set.cpp:ConcurrentTaskSet::wait:outstandingTaskCount_:load#1";
+   "task_set.cpp:ConcurrentTaskSet::tryWait:outstandingTaskCount_:load#0"; "task_set.cpp:ConcurrentTaskSet::tryWait:outstandingTaskCount_:load#1";
+   "task_set.cpp:TaskSet::wait:outstandingTaskCount_:load#0"; "task_set.cpp:TaskSet::wait:outstandingTaskCount_:load#1";
+   "task_set.cpp:TaskSet::tryWait:outstandingTaskCount_:load#0"; "task_set.cpp:TaskSet::tryWait:outstandingTaskCount_:load#1";
+   "task_set.cpp:TaskSet::tryWait:outstandingTaskCount_:load#2"].
+
+Definition h_taskset : handoff := {|
+  h_name := "task_set.outstanding_counter";
+  h_off := [tsi ++ "packageTask:outstandingTaskCount_:fetch_sub#0"; tsi ++ "packageTaskNoIncrement:outstandingTaskCount_:fetch_sub#0";
+            fib ++ "run:taskSetCounter_:fetch_sub#0"]; h_off_kind := ARmw;
+  h_take := ts_waits; h_take_kind := ALoad;
+  h_payload := "everything a task body wrote: visible to the caller after wait() (schedulers' fetch_add(acquire) are read-modify-writes in between)" |}.
+
+Definition h_ts_exception : handoff := {|
+  h_name := "task_set.exception_guard";
+  h_off := ["task_set.cpp:TaskSetBase::trySetCurrentException:guardException_:store#0"]; h_off_kind := AStore;
+  h_take := ["task_set.cpp:TaskSetBase::testAndResetException:guardException_:load#0"]; h_take_kind := ALoad;
+  h_payload := "TaskSetBase::exception_ stored by the task that won the kUnset -> kSetting CAS, rethrown by wait()" |}.
+
+Definition graph_dec := "detail/graph_executor_impl.h:ExecutorBase::evaluateNodeConcurrently:decNumIncompletePredecessors:call#0".
+Definition h_graph : handoff := {|
+  h_name := "graph.node_completion";
+  h_off := [graph_dec]; h_off_kind := ARmw;
+  h_take := [graph_dec]; h_take_kind := ARmw;
+  h_payload := "what the predecessor nodes' functors wrote; the thread whose decrement reaches zero runs the dependent node (order fixed at the call site: decNumIncompletePredecessors forwards it).  ParallelForExecutor / SingleThreadExecutor pass relaxed: ordering there is the wave barrier (task_set.outstanding_counter) resp. a single thread" |}.
+
+Definition h_numrings : handoff := {|
+  h_name := "thread_pool.numRings_publication";
+  h_off := ["thread_pool.cpp:ThreadPool::ThreadPool:numRings_:store#0"; "thread_pool.cpp:ThreadPool::resizeLocked:numRings_:store#0"];
+  h_off_kind := AStore;
+  h_take := ["thread_pool.h:ThreadPool::tryExecuteNextFromRings:numRings_:load#0"; "thread_pool.h:ThreadPool::scheduleBulkToRings:numRings_:load#0"];
+  h_take_kind := ALoad;
+  h_payload := "the ring array entries constructed before numRings_ is raised" |}.
+
+Definition handoffs : list handoff :=
+  [h_spsc_push_pop; h_spsc_pop_push; h_mpmc_push_pop; h_mpmc_pop_push; h_event; h_latch_direct; h_latch_last;
+   h_future_result; h_then_chain; h_whenall; h_async_ready; h_async_consumed; h_cvec; h_arena_size; h_arena_table;
+   h_rw_unlock_lock; h_rw_readers_writer_rmw; h_rw_readers_writer_load; h_taskset; h_ts_exception; h_graph; h_numrings].
+
+(* Hand-offs the source does NOT order by release/acquire (recorded, never proved): evaluated on every run, reported as
+   findings while [handoff_ok] is false, and silently fine once the source provides the orders. *)
+Definition g_future_refcount : handoff := {|
+  h_name := "future.refcount_dealloc";
+  h_off := [fib ++ "decRefCountMaybeDestroy:refCount_:fetch_sub#0"]; h_off_kind := ARmw;
+  h_take := [fib ++ "decRefCountMaybeDestroy:refCount_:fetch_sub#0"]; h_take_kind := ARmw;
+  h_payload := "the future's shared state: read by every holder before its decrement, destroyed and freed by the holder whose decrement returns 1 (needs acquire on that decrement or an acquire fence before dealloc())" |}.
+
+Definition g_wakestate : handoff := {|
+  h_name := "thread_pool.wakeState_publication";
+  h_off := ["thread_pool.cpp:ThreadPool::ThreadPool:wakeState_:store#0"; "thread_pool.cpp:ThreadPool::resizeLocked:wakeState_:store#0"];
+  h_off_kind := AStore;
+  h_take := ["thread_pool.h:consumeLoad:ptr:load#0"]; h_take_kind := ALoad;
+  h_payload := "the PoolWakeState object constructed before the pointer is stored; consumeLoad is a relaxed load + TSAN annotation: dependency-ordered only, which the C++ model does not order" |}.
+
+Definition gap_handoffs : list handoff := [g_future_refcount; g_wakestate].
+
+Definition status_of (h : handoff) : string * bool := (h_name h, handoff_ok h).
+Definition all_status : list (string * bool) := map status_of handoffs.
+Definition gap_status : list (string * bool) := map status_of gap_handoffs.
+
+(* sites named by the data that are missing from the extracted table *)
+Definition missing_sites : list string :=
+  filter (fun s => negb (has_site s)) (flat_map (fun h => app (h_off h) (h_take h)) (app handoffs gap_handoffs)).
